@@ -8,7 +8,7 @@ OUT=$(readlink -f $1); P=$2; TIER=${3:-quick}
 R=${VERIF_REPO:-/repo}
 V=${VERIF_DIR:-/verif}      # where the checks are run from (the seed matrix runs them from a snapshot)
 LOG=${SEED_LOG:-/tmp/mut/v_check.log}
-W=/tmp/mut/verify
+W=${SEED_W:-/tmp/mut/verify}
 # SKIP_CONFIRM=1: the change was confirmed before (meta.json "confirmed"); only run the check against it
 if [ "${SKIP_CONFIRM:-0}" = 1 ]; then
   git -C $R apply $OUT/patch.diff || { echo "RESULT $OUT apply-to-repo-failed"; exit 0; }
